@@ -442,6 +442,40 @@ def c18_4(ck, prog):
                      'capture no longer asks the monitor matchmaker for recipients')
 
 
+def c18_4c(ck, prog):
+    r = ck.rule('C18.4c', 'nothing queued on behalf of a connection survives its becoming a monitor and is later '
+                'addressed to it: pending replies are dropped, and held auto-start requests of the connection are '
+                'withdrawn or their outcome is not sent to a monitor', 'WHO',
+                breaks='a monitor receives, addressed to itself, the error or reply of a call it made before '
+                       'becoming a monitor', floor=2)
+    C = 'bus/connection.c'
+    A = 'bus/activation.c'
+    bm = prog.fn('bus_connection_be_monitor', C)
+    if bm.calls('bus_connection_drop_pending_replies'):
+        r.ok('bus_connection_be_monitor:pending-replies-dropped')
+    else:
+        r.violation('bus_connection_be_monitor:pending-replies-dropped', bm.name, C, bm.line,
+                    'pending replies of the new monitor are no longer dropped')
+    # held auto-start entries: withdrawn at BecomeMonitor time (a call into activation.c from be_monitor or its
+    # handler), or the two delivery paths of activation.c skip connections that are monitors
+    reach = prog.reachable_from([bm.key, prog.fn('bus_driver_handle_become_monitor', 'bus/driver.c').key])
+    withdraws = any(k in prog.funcs and prog.funcs[k].file == A for k in reach)
+    skips = True
+    for name in ('try_send_activation_failure', 'bus_activation_send_pending_auto_activation_messages'):
+        f = prog.fn(name, A)
+        if not f.calls('bus_connection_is_monitor'):
+            skips = False
+    key = 'bus_connection_be_monitor:held-activation-requests'
+    if withdraws or skips:
+        r.ok(key, {'withdraws': withdraws, 'delivery_skips_monitors': skips})
+    else:
+        r.violation(key, bm.name, C, bm.line,
+                    'a connection that becomes a monitor keeps its entries in pending activations: '
+                    'try_send_activation_failure / bus_activation_send_pending_auto_activation_messages later '
+                    'address the outcome to it (neither tests bus_connection_is_monitor, and BecomeMonitor does not '
+                    'reach activation.c)')
+
+
 def c18_5(ck, prog):
     r = ck.rule('C18.5', 'a BecomeMonitor that fails leaves no filter behind: on every failing exit of '
                 'bus_connection_be_monitor and of its rule-installing helper, rules already added to the monitor '
@@ -504,7 +538,21 @@ def run(ck):
         c18_2(ck, prog)
         c18_3(ck, prog)
         c18_4(ck, prog)
+        c18_4c(ck, prog)
         c18_5(ck, prog)
+        # what a new monitor still has outstanding is disposed of by bus_connection_drop_pending_replies
+        from rules.C09 import c09_3
+        r7 = ck.rule('C18.7', 'dropping the pending replies of a connection (disconnect, BecomeMonitor) removes '
+                     'the slots it would receive a reply for and expires only those it owes to others '
+                     '(shared with C09.3)', 'TS',
+                     breaks='a new monitor is sent a NoReply error addressed to itself for a call it made to a '
+                            'name it owned', floor=2)
+        save7 = ck.rule
+        ck.rule = lambda *a, **k: r7
+        try:
+            c09_3(ck, prog)
+        finally:
+            ck.rule = save7
         # monitor filters are match rules: what a monitor sees is decided by the shared matcher
         from rules.C07 import c07_1
         r6 = ck.rule('C18.6', 'monitor filters are evaluated by the match-rule matcher, every key of which is set, '
